@@ -46,13 +46,13 @@ func init() {
 	}
 	c10 := func(tier string) func(uint64, *prog.Program) *RunResult {
 		return func(seed uint64, p *prog.Program) *RunResult {
-			res := crashExec(seed, p, snapPolicy(tier, true, true, false), judgeMode{Recovery: true}, run.Options{Deferred: true})
+			res := crashExec(seed, p, snapPolicy(tier, true, true, false), judgeMode{Recovery: true, ContinueP: 0.3}, run.Options{Deferred: true})
 			res.Nontrivial = res.Images >= 3 && res.Faults["torn"] > 0
 			return res
 		}
 	}
 	deep10 := func(seed uint64, p *prog.Program) *RunResult {
-		return crashExec(seed, p, deepPolicy(true, true, false), judgeMode{Recovery: true}, run.Options{Deferred: true})
+		return crashExec(seed, p, deepPolicy(true, true, false), judgeMode{Recovery: true, ContinueP: 0.3}, run.Options{Deferred: true})
 	}
 	Register(&Spec{
 		ID: "C10", Level: "fault_enumeration",
@@ -80,14 +80,14 @@ func init() {
 	c11 := func(tier string) func(uint64, *prog.Program) *RunResult {
 		return func(seed uint64, p *prog.Program) *RunResult {
 			p.Cfg.Sync = true // the premise of C11; shrinking must not drop it
-			res := crashExec(seed, p, snapPolicy(tier, false, false, true), judgeMode{Recovery: true}, run.Options{Deferred: true})
+			res := crashExec(seed, p, snapPolicy(tier, false, false, true), judgeMode{Recovery: true, ContinueP: 0.3}, run.Options{Deferred: true})
 			res.Nontrivial = res.Images >= 3
 			return res
 		}
 	}
 	deep11 := func(seed uint64, p *prog.Program) *RunResult {
 		p.Cfg.Sync = true
-		return crashExec(seed, p, deepPolicy(false, false, true), judgeMode{Recovery: true}, run.Options{Deferred: true})
+		return crashExec(seed, p, deepPolicy(false, false, true), judgeMode{Recovery: true, ContinueP: 0.3}, run.Options{Deferred: true})
 	}
 	Register(&Spec{
 		ID: "C11", Level: "fault_enumeration",
